@@ -530,7 +530,6 @@ func cmdDetHash(args []string) int {
 	return 0
 }
 
-
 func lastLine(s string) string {
 	s = strings.TrimSpace(s)
 	if i := strings.LastIndex(s, "\n"); i >= 0 {
